@@ -82,6 +82,9 @@ pub struct RunRt {
     pct_points: Vec<u64>,
     // clock
     pub clock_ns: u64,
+    /// Simulated time covered by steps of at most one hour (the "100 years
+    /// later" jumps would otherwise dominate the total).
+    pub clock_small_ns: u64,
     pub mono: bool,
     // events
     pub seq: u32,
@@ -122,6 +125,7 @@ impl RunRt {
             pct_low: 0,
             pct_points: vec![],
             clock_ns: 0,
+            clock_small_ns: 0,
             mono: true,
             seq: 0,
             events: vec![],
@@ -162,6 +166,7 @@ impl RunRt {
             }
         }
         self.clock_ns = 0;
+        self.clock_small_ns = 0;
         self.mono = true;
         self.seq = 0;
         self.events.clear();
@@ -571,6 +576,9 @@ pub fn clock() -> u64 {
 pub fn advance_clock(d: u64) {
     with_rt(|rt| {
         rt.clock_ns = rt.clock_ns.saturating_add(d);
+        if d <= 3_600_000_000_000 {
+            rt.clock_small_ns += d;
+        }
         rt.push_event(What::Note("clock.advance"));
     });
 }
